@@ -69,6 +69,19 @@ def try_replay(prop, name, ob, repo, work):
 
 def rerun(path, repo):
     info = json.load(open(path))
+    if "bounded_check" in info:
+        # a bounded stand-in failed: run it again
+        import bounded
+        for prop, bs in bounded.TABLE.items():
+            for b in bs:
+                res = b("thorough", 1, repo, os.path.dirname(path))
+                if res.get("id") == info["bounded_check"]:
+                    print(json.dumps({k: v for k, v in res.items() if k != "violations"}, indent=1))
+                    return not res.get("failed")
+        return True
+    if info.get("obligation") in ("selftest", "govc:load"):
+        print(json.dumps(info, indent=1)[:4000])
+        return True
     ob = {"model": info.get("model"), "src": info.get("src"), "path": info.get("path")}
     ok, rinfo = try_replay(info["property"], info["obligation"], ob, repo, os.path.dirname(path))
     print(json.dumps(rinfo, indent=1))
